@@ -142,20 +142,52 @@ THEOREMS = [
      "wire_history auth_ok fixed c (fun _ => hstate0) [ra] = [Ok WNoTls] /\\ wire_spec ops (fun _ => hstate0) [ra] = [W409] /\\ "
      "wire_history auth_ok fixed c (fun _ => hstate0) [rb] = [Ok WNoTls] /\\ wire_spec ops (fun _ => hstate0) [rb] = [W200 0 1]"),
 ]
-RULE = ("(a) direct calls of HostCollection::builder().insert/.default(..).build() and Collection::get_from_request / get_host / "
+RULE = ("(a) hosts.lookup: direct calls of HostCollection::builder().insert/.default(..).build() and Collection::get_from_request / get_host / "
         "get_or_default / get_default / clear_file / clear_file_caches on the real code against the Coq model (correspondence) and the "
-        "reference resolver (oracle): collections of 1-4 hosts x default none/any position (and a second default: builder panic) x "
-        "alternative names incl. overlapping ones x a menu of ~45 requested names per collection (every configured name exact, with "
-        "trailing dot(s), upper case, with port, unknown, localhost / 127.0.0.1 / [::1] / ::1 with and without port and near misses, "
-        "empty, absent, non-ASCII, TAB) as SNI, as Host header, both, and two Host headers. thorough: exhaustive over the reduced "
-        "universe (names a/b/c.test, <= 2 alternative names, 1-3 hosts, every default position) + sampled 4-host collections; quick: "
-        "sampled. (b) histories of 6-14 HTTP/1.1 requests through kvarn::handle_connection over loopback TCP against 2-4 hosts with "
-        "per-host counting handlers (response cache on), per-host files of the same name (file cache on), identical paths on "
-        "alternating hosts. distinct_nontrivial counts distinct (component, input) pairs")
-ASSUMPTIONS = []
-TRUSTED = ["modelled: src/host.rs CollectionBuilder::{insert, default}, Collection::{get_host, get_default, get_or_default, "
-           "get_option_or_default, get_from_request, clear_page/clear_file target, clear_*_caches targets}; src/lib.rs handle_connection "
-           "host choice (409, re-lookup by name)"]
+        "reference resolver (oracle; every query kind now has a specified answer): collections of 1-4 hosts x default none/any position (and a "
+        "second default: builder panic) x alternative names incl. overlapping ones x a menu of ~45 requested names per collection (every configured "
+        "name exact, with trailing dot(s), upper case, with port, unknown, localhost / 127.0.0.1 / [::1] / ::1 with and without port and near misses, "
+        "empty, absent, non-ASCII, TAB) as SNI, as Host header, both, and two Host headers. thorough: exhaustive over the reduced universe (names "
+        "a/b/c.test, <= 2 alternative names, 1-3 hosts, every default position) + sampled 4-host collections; quick: sampled. "
+        "(b) hosts.wire: histories of 6-14 requests through kvarn::handle_connection over loopback connections of three kinds — plain TCP with "
+        "HTTP/1.1 or HTTP/1.0, TLS with HTTP/1.1 (ALPN http/1.1), TLS with HTTP/2 (ALPN h2); rustls / h2 clients in the harness — against 2-4 hosts "
+        "(some built by Host::clone_without_extensions of their neighbour, some sharing Host::path with host 0) with per-host counting handlers "
+        "(response cache on; marker = index captured by the closure + id read from the &Host argument + invocation number, in body and header), "
+        "per-host files of the same name (file cache on), identical paths on alternating hosts: SNI in {configured, unknown, localhost, none} "
+        "independently of Host header / :authority in {configured exact / trailing dot / upper case / with port, loopback forms, unknown, absent, "
+        "two lines, 13 values that are not URI authorities}; methods GET / HEAD / POST / PUT; accept-encoding: gzip; if-modified-since in the "
+        "future (304 on a stored entry) and in the past. (b2) hosts.wire2: 2-4 clients at once, each with a host of its own (identical paths), every "
+        "client must see what it would see alone. (c) hosts.pipe: 2-4 hosts each with the fixture pipeline of C03/C04 (counting / echoing / "
+        "method handlers with ServerCachePreference None / QueryMatters / Full, vary rule, response cache on/off, default extensions on/off) in one "
+        "collection; histories of 10-18 events: requests routed as handle_connection routes them (get_from_request(request, sni) + "
+        "get_host(name).unwrap()) and served by kvarn::handle_cache (incl. accept-encoding, if-modified-since, HEAD / POST), "
+        "Collection::clear_page(name, uri) with name in {configured, alternative, default, \"\", unknown, trailing dot}, "
+        "Collection::clear_response_caches(filter) with filter in {none, host name, alternative name, unknown}; compared with the product of the "
+        "routing model and Model/CacheX.v (correspondence) and with the specification server (oracle); after every request the handler logs of all "
+        "other hosts must be empty. distinct_nontrivial counts distinct (component, input) pairs")
+ASSUMPTIONS = [
+    "wire histories: a request is what the harness's clients can send — SNI a lower-case DNS name without trailing dot (rustls strips the dot and "
+    "the rustls server lower-cases; other spellings reach get_from_request only through the direct calls of hosts.lookup), origin-form request "
+    "target, :authority of an HTTP/2 request accepted by the h2 / http crates (hypothesis wf_wreq of the theorems)",
+    "every host of a wire history presents a certificate (the same self-signed one): a host without certificate refuses the handshake for its "
+    "own name, which is not modelled",
+    "the per-host pipeline under the wire histories is the marker handler with its response cache (path-keyed entries that never expire within a "
+    "run, GET/HEAD looked up and stored, 304 for if-modified-since in the future on a stored entry); the full cache model sits under hosts.pipe",
+    "hosts.pipe: no waits, lifetimes >= 120 s, if-modified-since 60 s away from the run's start: nothing in a run depends on the clock",
+    "concurrency: wire_concurrent_clients quantifies over interleavings of whole requests (HTTP/1 connections are served one request at a time; "
+    "requests to different hosts share no state in the model); finer-grained races inside one host are C05's subject",
+    "the limiter is disabled on every host (Host::limiter of the first host is also the collection's pre-host limiter: shared state that is not "
+    "part of this property)",
+]
+TRUSTED = ["modelled (Model/Hosts.v): src/host.rs CollectionBuilder::{insert, default}, Collection::{get_host, get_default, get_or_default, "
+           "get_option_or_default, get_from_request (with the URI's authority), clear_page / clear_file target, clear_response_caches / "
+           "clear_file_caches targets}, ResolvesServerCert::resolve (handshake accepted iff the SNI lookup finds a host); src/lib.rs "
+           "handle_connection: SNI of the connection, host choice, 409, re-lookup by name; async/src/lib.rs read::request (= src/application.rs "
+           "copy): which Host value becomes the URI's authority, when a request is refused; (Model/HostsPipe.v) the product of these with "
+           "Model/CacheX.v per host",
+           "http 1.5.0 uri::Authority::try_from as transcribed for C07 (Model/Http1Read.v authority_ok; proved here to accept only text; the "
+           "replies of the repaired code are proved independent of what exactly it accepts: authority_parser_irrelevant)",
+           "rustls / tokio-rustls / h2 clients of the harness and a certificate verifier that accepts the harness's self-signed certificate"]
 EXHAUSTIVE = False
 IMPL_SHARDS = 16
 
@@ -623,6 +655,27 @@ def directed(rng, mismatches):
     return cases
 
 
-LEVEL_TEXT = ""
-LEVEL_NOTE = ""
-TECHNIQUE = "Coq proof (model = reference resolver for all configurations and names; product frame theorem) + differential correspondence model vs. implementation"
+LEVEL_TEXT = ("Coq theorems, no axioms. ROUTING: for every sequence of builder calls, SNI and Host values, get_from_request on the model of the "
+              "collection equals the reference resolver (routing_eq_reference without overlap, routing_overlapping in general; trailing dot, default, "
+              "loopback, 409), the choice in handle_connection never fails (connection_choice), and the administrative lookups hit the hosts the "
+              "configuration names (clear_page_target_eq, clear_all_targets_eq). CONNECTIONS: for every history over any mix of plain HTTP/1.x, "
+              "TLS + HTTP/1.1 and TLS + HTTP/2 connections with any SNI / Host lines / :authority / methods / conditional requests, the model of "
+              "today's handle_connection + TLS certificate resolver + read::request + get_from_request answers exactly as the specification server "
+              "— the product of the per-host handlers and caches routed by the reference resolver from the SNI if present, else from the Host header "
+              "(wire_histories_eq_spec, _http: with the transcribed authority parser, no hypothesis left; sni_decides; tls_never_409) — except for "
+              "TLS connections refused during the handshake (known class tls-handshake-refused, witness tls_handshake_refuted). ISOLATION: "
+              "host_frame / host_frame_history / host_history_independence for the abstract product; instantiated (a) with the wire model "
+              "(wire_isolation; wire_concurrent_clients: every interleaving of one client's requests with any other requests that are routed to "
+              "other hosts gives the client the replies it would get alone) and (b) with the C03/C04 model of kvarn::handle_cache under every host "
+              "plus clear_page / clear_response_caches / waits as events (multi_host_pipeline_eq_projection: state and replies of host i are those of "
+              "its own pipeline on the sub-history the specification assigns to it; multi_host_pipeline_eq_spec; host_alone_is_cache_pipeline: that "
+              "pipeline is CacheX.runX_state of C03/C04). Five defects of the code are proved as witnesses on the faithful old model and replayed "
+              "by the corpus: alias_chain_refuted, ipv6_loopback_refuted (repaired earlier), absent_host_refuted, bad_authority_refuted, "
+              "h2_authority_refuted (repaired in this round: e8886f0, c618f50, 7667690). Tied to the repo worktree by the differential run of "
+              "the real Collection calls, of kvarn::handle_connection over loopback TCP / TLS / HTTP/2 connections, and of multi-host collections "
+              "over kvarn::handle_cache, against the extracted models and the specification servers.")
+LEVEL_NOTE = ("Trusted: Coq kernel; extraction (sample re-checked in-kernel); hand transcription of host.rs / handle_connection / read::request "
+              "into Model/Hosts.v validated by the differential run; the reading of 'equals' as byte equality (A.TEST and a.test:8080 are unknown "
+              "names, as in the code); rustls / h2 as clients. Not covered: HTTP/3; SNI spellings a rustls client cannot send other than through "
+              "the direct calls; hosts without certificate on a TLS port; the shared pre-host limiter; races inside one host (C05).")
+TECHNIQUE = "Coq proof (model = reference resolver for all configurations and names; product frame theorem instantiated with the connection model and with the C03/C04 pipeline model) + differential correspondence on Collection calls, on handle_connection over TCP/TLS/HTTP2 loopback connections and on multi-host handle_cache histories"
